@@ -256,6 +256,7 @@ pub struct Agg {
     pub viz_with_deleted: u64,
     pub viz_infeasible: u64,
     pub callbacks: u64,
+    pub recycled: u64,
     pub hits: BTreeMap<String, u64>,
     pub samples: Vec<Value>,
 }
@@ -265,7 +266,7 @@ impl Agg {
         self.relaxed_exact_claims += o.relaxed_exact_claims; self.relaxed_exact_with_merge += o.relaxed_exact_with_merge; self.restricted += o.restricted; self.restricted_inexact += o.restricted_inexact;
         self.exact += o.exact; self.cutset_nodes += o.cutset_nodes; self.history_pairs += o.history_pairs; self.history_differs += o.history_differs; self.merges += o.merges; self.relax_calls += o.relax_calls;
         self.layers_checked += o.layers_checked; self.layers_at_width += o.layers_at_width; self.infeasible_roots += o.infeasible_roots; self.viz_texts += o.viz_texts; self.viz_with_deleted += o.viz_with_deleted;
-        self.viz_infeasible += o.viz_infeasible; self.callbacks += o.callbacks;
+        self.viz_infeasible += o.viz_infeasible; self.callbacks += o.callbacks; self.recycled += o.recycled;
         for (k, v) in o.hits { *self.hits.entry(k).or_insert(0) += v; }
         for s in o.samples { if self.samples.len() < 5 { self.samples.push(s); } }
     }
@@ -328,6 +329,7 @@ fn run_kind<D: DdX>(rep: &Reporter, focus: &[&str], plan: &Plan, m: &dyn Model, 
         agg.merges += res.stats.merges as u64; agg.relax_calls += res.stats.relax_calls as u64; agg.layers_checked += res.stats.layers_checked as u64;
         if res.stats.max_layer_expansions >= t.width { agg.layers_at_width += 1; }
         agg.callbacks += (res.stats.relax_calls + res.stats.merges) as u64;
+        agg.recycled += res.stats.recycled_candidates as u64;
         agg.cutset_nodes += res.cutset.len() as u64;
         match t.ct {
             CompilationType::Relaxed => { agg.relaxed += 1; if !res.is_exact { agg.relaxed_inexact += 1; } else { agg.relaxed_exact_claims += 1; if res.stats.merges > 0 { agg.relaxed_exact_with_merge += 1; } } }
@@ -418,11 +420,17 @@ fn plans(prop: &str, th: bool) -> Vec<Plan> {
         mkplan("TM-B4", variants_ca(), true, w, hist, false, Some(if th { 16384 } else { 1500 })),
         mkplan("TM-N0.1", variants_ca(), true, w, hist, false, None),
         mkplan("TM-N1.1", variants_ca(), true, w, hist, false, None),
+        // every instance of the two main neighbourhoods under EVERY variant (no rotation), fresh-object space only
+        mkplan("TM-N0.1", variants_ca(), false, w, false, false, None),
+        mkplan("TM-N1.1", variants_ca(), false, w, false, false, None),
         mkplan("TM-N2.1", variants_ca(), true, w, false, false, Some(if th { 391 } else { 100 })),
         mkplan("TM-N3.1", variants_ca(), true, w, false, false, Some(if th { 451 } else { 100 })),
         mkplan("SP-3", sp.clone(), false, w, hist, false, None),
         mkplan("SP-4", sp.clone(), true, w, false, false, Some(if th { 5184 } else { 2500 })),
         mkplan("KP-3", variants_kp(), true, w, hist, false, Some(if th { 5103 } else { 2500 })),
+        mkplan("KP-4", variants_kp(), true, w, false, false, Some(if th { 45927 } else { 4000 })),
+        mkplan("KPZ-3", variants_kp(), false, w, hist, false, Some(if th { 1512 } else { 400 })),
+        mkplan("KPZ-4", variants_kp(), true, w, false, false, None),
     ];
     if prop != "C13" {
         p.push(mkplan("TM-N0.0irr", irr.clone(), true, w, hist, false, Some(if th { 1351 } else { 300 })));
@@ -444,7 +452,9 @@ pub fn check(prop: &str, tier: &str) -> i32 {
     let th = rep.thorough();
     let deadline = Some(Instant::now() + Duration::from_secs(if th { 1500 } else { 45 }));
     let focus = [match prop { "C06" => "C06", "C07" => "C07", "C08" => "C08", "C12" => "C12", "C13" => "C13", _ => "C20" }];
-    let plans = plans(prop, th);
+    let mut plans = plans(prop, th);
+    // diagnostic only: VERIF_DD_ONLY=<family> restricts the run to one family, completely enumerated
+    if let Ok(only) = std::env::var("VERIF_DD_ONLY") { plans.retain(|p| p.fam.name() == only); for p in plans.iter_mut() { p.limit = None; } }
     let mut total = Agg::default();
     let mut scopes = vec![];
     let mut complete = true;
@@ -463,7 +473,7 @@ pub fn check(prop: &str, tier: &str) -> i32 {
     let (evals, nontrivial, rule): (u64, u64, &str) = match prop {
         "C06" => (total.relaxed, total.relaxed_inexact + total.relaxed_exact_with_merge, "every reachable exact sub-problem (best and worst prefix) of every instance x widths x incumbents {none, opt-1, opt, opt+1} x {LEL, frontier, pooled}, relaxed compilation through the public CompilationInput with EmptyCache/EmptyDominanceChecker, on a used object, plus the history dimension (12 representative prior compilations before the target, results must equal the first ones); oracle (a) best_value >= every completion beating the incumbent, (b) is_exact => best exact solution feasible with exactly best_exact_value <= opt, == opt when opt beats the incumbent; non-trivial = relaxed compilations which merged (inexact, or exact claims despite a merge)"),
         "C07" => (total.restricted + total.exact, total.restricted_inexact + total.exact, "same space as C06, restricted and exact compilations: value <= sub-problem optimum, best solution replays feasibly to exactly the value, exact claim => optimum (when it beats the incumbent), exact mode => optimum for every width; non-trivial = restricted compilations which really dropped nodes + all exact-mode compilations"),
-        "C08" => (total.relaxed_inexact, total.cutset_nodes, "same space as C06 restricted to inexact relaxed compilations (LEL and frontier cut-sets on Mdd, frontier on Pooled, models with long arcs included): every sub-problem handed to the drain_cutset callback is (i) exact by model-side replay of its path, (ii) strictly deeper than and different from the root, (iii) ub >= its best completion when that beats the incumbent, (iv) every completion of the root beating incumbent and best exact value passes through a handed-out node with at least its prefix value; an exact relaxed diagram hands out nothing; non-trivial count = number of cut-set nodes checked"),
+        "C08" => (total.relaxed, total.relaxed_inexact, "same space as C06 restricted to inexact relaxed compilations (LEL and frontier cut-sets on Mdd, frontier on Pooled, models with long arcs included): every sub-problem handed to the drain_cutset callback is (i) exact by model-side replay of its path, (ii) strictly deeper than and different from the root, (iii) ub >= its best completion when that beats the incumbent, (iv) every completion of the root beating incumbent and best exact value passes through a handed-out node with at least its prefix value; evaluations = relaxed compilations, non-trivial = the inexact ones (whose cut-set is examined; cutset_nodes_checked gives the number of handed-out sub-problems)"),
         "C12" => (total.compilations, total.callbacks, "every callback of every compilation of the C06 space (3 diagrams x 3 compilation types) goes through a protocol automaton around Problem/Relaxation: transition/transition_cost/relax arguments coherent (dst = transition(src,d), d in the domain enumerated for src, cost = the recorded cost of that arc, merged = last merge result over >= 2 states of the layer containing dst), domains only for the variable chosen by next_variable and states of that layer, depth argument = layers below the problem root; non-trivial count = merge + relax callbacks checked (the rarely exercised part of the protocol)"),
         "C13" => (total.layers_checked, total.layers_at_width, "every layer of every restricted/relaxed compilation of the C06 space with widths 1..5 on models where every state is impacted by every variable: number of states expanded (domain enumerations between two next_variable calls) <= max_width, except root layer and first layer below it in relaxed mode; plus the exhaustive grid of width combinators; non-trivial = compilations in which some layer expanded >= max_width states (the bound is tight there)"),
         _ => (total.viz_texts, total.viz_with_deleted, "every compilation of the listed scopes x ALL 64 VizConfig flag combinations x 3 diagrams: as_graphviz under catch_unwind, DOT reader accepts the text, node ids unique, labels hold exactly the requested fields, drawn edges (mapped through node labels) == multiset of arcs recorded from the Problem/Relaxation callbacks when show_deleted, sub-graph of it otherwise with no edge to/from a missing node, terminal node <=> feasible diagram with one edge per terminal-layer node; non-trivial = texts of diagrams containing deleted/merged nodes"),
@@ -473,7 +483,7 @@ pub fn check(prop: &str, tier: &str) -> i32 {
         "model_instances": total.instances, "sub_problem_roots": total.roots, "infeasible_roots": total.infeasible_roots, "compilations": total.compilations,
         "relaxed": total.relaxed, "relaxed_inexact": total.relaxed_inexact, "relaxed_exact_claims": total.relaxed_exact_claims, "relaxed_exact_claims_despite_merge": total.relaxed_exact_with_merge,
         "restricted": total.restricted, "restricted_inexact": total.restricted_inexact, "exact_mode": total.exact, "cutset_nodes_checked": total.cutset_nodes,
-        "history_pairs": total.history_pairs, "history_pairs_with_different_public_results": total.history_differs, "merges": total.merges, "relax_calls": total.relax_calls,
+        "history_pairs": total.history_pairs, "history_pairs_with_different_public_results": total.history_differs, "merges": total.merges, "merges_whose_result_equals_a_kept_node_of_the_layer (recycling)": total.recycled, "relax_calls": total.relax_calls,
         "layers_checked_for_width": total.layers_checked, "viz_texts": total.viz_texts, "viz_infeasible_diagrams": total.viz_infeasible,
         "monitor_hits_all_properties": total.hits,
         "caps_hit": if complete { json!([]) } else { json!(["wall clock cap of the tier: see scopes[*].instances_done"]) },
